@@ -42,7 +42,9 @@ pub mod probes {
     pub const READER_STORAGE: usize = 29;
     pub const PAID_STORAGE: usize = 30;
     pub const PTR_READ_UNPROTECTED: usize = 31;
-    pub const NAMES: [&str; 32] = [
+    pub const PAYALL_ENTER: usize = 32;
+    pub const PAYALL_EXIT: usize = 33;
+    pub const NAMES: [&str; 34] = [
         "fast_confirmed",
         "fast_changed_returned",
         "fast_changed_paid",
@@ -75,6 +77,8 @@ pub mod probes {
         "reader_storage",
         "paid_storage",
         "ptr_read_unprotected",
+        "payall_enter",
+        "payall_exit",
     ];
 }
 
